@@ -141,10 +141,19 @@ func (p *jsonPathParser) _unescapeJSONString(input []byte) (string, error) {
 }
 
 func (p *jsonPathParser) syntaxErr(pos int, reason string, buffer string) error {
+	// The position given by the PEG parser counts runes, not bytes.
+	byteOffset, runeIndex := len(buffer), 0
+	for index := range buffer {
+		if runeIndex == pos {
+			byteOffset = index
+			break
+		}
+		runeIndex++
+	}
 	return ErrorInvalidSyntax{
 		position: pos,
 		reason:   reason,
-		near:     buffer[pos:],
+		near:     buffer[byteOffset:],
 	}
 }
 
